@@ -96,6 +96,7 @@ type ContractSet struct {
 	Specs  []*SpecDecl
 	Axioms []*AxiomDecl
 	Models []*ModelField
+	Monotone []string
 	Files  []string
 }
 
@@ -196,6 +197,9 @@ func parseContractSource(cs *ContractSet, file, src, pkgPath string) error {
 			ax := &AxiomDecl{Name: strings.TrimSpace(parts[0]), Text: strings.TrimSpace(parts[1]), PkgPath: pkgPath, File: rl.file, Line: rl.line, Lemma: word == "lemma"}
 			cs.Axioms = append(cs.Axioms, ax)
 			lastAxiom = ax
+			cur = nil
+		case "monotone":
+			cs.Monotone = append(cs.Monotone, strings.TrimSpace(rest))
 			cur = nil
 		case "modelfield":
 			// modelfield T.f ghost fn
